@@ -1,6 +1,8 @@
 import BSModel.Driver.Util
 import BSModel.Model.Formatter
 import BSModel.Model.FormatterBuild
+import BSModel.Model.FormatterPopulate
+import BSModel.Gen.FormatterHtml5
 import BSModel.Gen.Formatter
 /-! line protocol of C15 (formatters)
 
@@ -9,6 +11,9 @@ import BSModel.Gen.Formatter
     c15 run <isXml> <fmt> <mode> <parent> <ng> <graph>*ng <tree>
                                                      resolve the formatter, then render
     c15 runat <chain> <rootAttr> <fmt> <mode> <parent> <ng> <graph>*ng <tree>   like run; the flavour comes from isXmlOf
+    c15 populate | c2e | e2c                         the mirror of _populate_class_variables on the generated stdlib tables:
+                                                     alternatives key/notNext/repl, CHARACTER_TO_HTML_ENTITY, HTML_ENTITY_TO_CHARACTER
+    c15 substpop <cps>                               substitute_html over the mirror's alternatives
     c15 subst x|h <cps>                              substitute_xml / substitute_html (re.sub over the generated table)
     c15 substrev <cps>                               substitute_html with the alternatives listed in reverse
 
@@ -257,6 +262,15 @@ def handle : List String → String
     match parseRaw (tt.length + 1) tt with
     | some (t, []) => " ".intercalate (showNode (build b t))
     | _ => "bad-tree"
+  | ["populate"] =>
+    -- the alternatives the mirror of `_populate_class_variables` assembles from the generated stdlib tables
+    " ".intercalate ((populateAlts BS.Gen.c15Html5Items BS.Gen.c15Codepoint2name).map fun a =>
+      showP a.key ++ "/" ++ showP a.notNext ++ "/" ++ showP a.repl)
+  | ["c2e"] =>
+    " ".intercalate ((charToEntity BS.Gen.c15Html5Items BS.Gen.c15Codepoint2name).map fun e => showP e.1 ++ "/" ++ showP e.2)
+  | ["e2c"] =>
+    " ".intercalate ((popLoop BS.Gen.c15Html5Items).nameToUnicode.map fun e => showP e.1 ++ "/" ++ showP e.2)
+  | ["substpop", s] => showP (reSub (populateAlts BS.Gen.c15Html5Items BS.Gen.c15Codepoint2name) (pcps s))
   | ["subst", "x", s] => showP (substXml (pcps s))
   | ["subst", "h", s] => showP (reSub BS.Gen.htmlAlts (pcps s))
   | ["substrev", s] => showP (reSub BS.Gen.htmlAlts.reverse (pcps s))
